@@ -1045,3 +1045,28 @@ Section Returns.
       destruct (chk_total A cr T (oa, oi)) as (r & Er). unfold chk in Er. simpl in Er. congruence.
   Qed.
 End Returns.
+
+(* ------------------------------------------------------------------------------------------------
+   permutation invariance of the whole check (all alternative lists), one-character delimiter
+   ------------------------------------------------------------------------------------------------ *)
+Theorem slg_check_perm_invariant : forall A (cr : A -> str -> res sres) solve, solver_optimal solve ->
+  forall c answers d items items' r r', c_delim c = [d] -> items <> [] -> Forall (fun it => ~ In d it) items ->
+    valid_answers cr answers -> c_ordered c = false -> Permutation items items' ->
+    check cr solve c answers (join [d] items) = inl r -> check cr solve c answers (join [d] items') = inl r' ->
+    sr_grade r == sr_grade r'.
+Proof.
+  intros A cr solve Hs c answers d items items' r r' Hd Hne Hno V Ho HP H H'.
+  assert (Hne' : items' <> []) by (intro E; subst items'; apply Permutation_sym, Permutation_nil in HP; congruence).
+  assert (Hno' : Forall (fun it => ~ In d it) items') by (eapply Permutation_Forall; eassumption).
+  destruct (slg_check_formula A cr solve Hs c answers _ r V H) as ((a & Ha & F) & U & _).
+  destruct (slg_check_formula A cr solve Hs c answers _ r' V H') as ((a' & Ha' & F') & U' & _).
+  unfold items_of in *. rewrite Hd in *. rewrite split_join_single in F, U by assumption. rewrite split_join_single in F', U' by assumption.
+  assert (L1 : sr_grade r <= sr_grade r') by (apply (U' a _ Ha); apply (formula_perm A cr c a items items' _ Ho HP F)).
+  assert (L2 : sr_grade r' <= sr_grade r) by (apply (U a' _ Ha'); apply (formula_perm A cr c a' items' items _ Ho (Permutation_sym HP) F')).
+  lra.
+Qed.
+
+(* what the caller of grader(expect, input) sees of a result *)
+Lemma to_entry_spec : forall r, e_grade (to_entry r) = sr_grade r /\ e_ok (to_entry r) = grade_to_ok (sr_grade r) /\
+  e_msg (to_entry r) = format_msg (sr_msg r).
+Proof. intro r. repeat split. Qed.
